@@ -9,3 +9,25 @@ package csblob
 //@   nopanic
 //@   loop 0 sig "for i := 0; i < count; i++" invariant 0 <= i && i <= count && count >= 0 && len(indexes) == 8 * count && \
 //@        dataOffset == origLen - len(blob) && origLen >= len(blob) && (items == nil || allocated(items))
+
+//@ func parseCodeDirectory$1
+//@   property C11
+//@   nopanic
+//@   requires hashLen >= 1 && hashLen <= 255 && 0 <= hashBase + i * hashLen && hashBase + (i + 1) * hashLen <= len(blob)
+//@   loop 0 sig "for _, c := range hash" invariant -1 <= rangeindex && rangeindex < len(hash)
+//@   modifies nothing
+//@
+//@ func cstring
+//@   property C11
+//@   nopanic
+//@   requires i >= 0
+//@   modifies nothing
+//@
+//@ func parseCodeDirectory
+//@   property C11
+//@   nopanic
+//@   allocbound 0 24 * len(blob) + 24
+//@   loop 0 sig "for i := 0; i < int(hdr.CodeSlotCount); i++" invariant 0 <= i && i <= hdr.CodeSlotCount && len(dir.CodeHashes) == hdr.CodeSlotCount && dir != nil && \
+//@        hashLen >= 1 && hashLen <= 255 && hdr.SpecialSlotCount * hashLen <= hashBase && hashBase + hdr.CodeSlotCount * hashLen <= len(blob) && hashBase >= 0
+//@   loop 1 sig "for i := 1; i <= int(hdr.SpecialSlotCount); i++" invariant 1 <= i && dir != nil && \
+//@        hashLen >= 1 && hashLen <= 255 && hdr.SpecialSlotCount * hashLen <= hashBase && hashBase + hdr.CodeSlotCount * hashLen <= len(blob) && hashBase >= 0
